@@ -313,7 +313,7 @@ func c08ProjEnv() {
 	base := c08ProjBase()
 	for s := 0; s < model.NShapes; s++ {
 		q := model.BuildShape(base, s)
-		o := model.Observe(q)
+		o := model.ObserveAs(q, base)
 		o.AdoptMeta(base)
 		c08proj.real = append(c08proj.real, q)
 		c08proj.obs = append(c08proj.obs, o)
